@@ -4559,6 +4559,16 @@ fn check_snippet(src: &str, path: PathBuf, env: &Env) -> Value {
         .map(|e| e.as_ref().clone())
         .unwrap_or_else(|| Env::new(IdGenerator::default(), Vfs::default()));
 
+    // The VFS only accepts absolute paths or built-in file names, so
+    // resolve a relative path against the working directory.
+    let path = if path.is_absolute() || path.display().to_string().starts_with("__") {
+        path
+    } else {
+        std::env::current_dir()
+            .unwrap_or_else(|_| PathBuf::from("/"))
+            .join(path)
+    };
+
     let vfs_path = check_env.vfs.insert(Rc::new(path.clone()), src.to_owned());
     let (items, syntax_errors) = parse_toplevel_items(&vfs_path, src, &mut check_env.id_gen);
 
